@@ -22,6 +22,7 @@ mod framing;
 mod guard;
 mod io;
 mod keepalive;
+mod backpressure;
 mod localproc;
 mod md5;
 mod nodeenv;
@@ -75,6 +76,7 @@ fn main() {
         "epmd-run" => epmd::run(rest),
         "guard-run" => guard::run(rest),
         "keepalive-run" => keepalive::run(rest),
+        "backpressure-run" => backpressure::run(rest),
         "behaviours-run" => behaviours::run(rest),
         "nodeconn-run" => nodeconn::run(rest),
         other => {
